@@ -926,7 +926,15 @@ void var_opt_sketch<T, A>::decrease_k_by_1() {
     const uint32_t old_final_r_idx = (h_ + 1 + r_) - 1;
     if (old_final_r_idx != k_) throw std::logic_error("gadget in invalid state");
     
-    swap_values(old_final_r_idx, old_gap_idx);
+    if (filled_data_) {
+      swap_values(old_final_r_idx, old_gap_idx);
+    } else {
+      // the gap holds no constructed item: move the last R item into it instead of swapping with raw memory
+      new (&data_[old_gap_idx]) T(std::move(data_[old_final_r_idx]));
+      std::swap(weights_[old_final_r_idx], weights_[old_gap_idx]);
+      if (marks_ != nullptr) std::swap(marks_[old_final_r_idx], marks_[old_gap_idx]);
+    }
+    data_[old_final_r_idx].~T(); // this slot falls outside the array once k_ is decreased
     filled_data_ = true; // we just filled the gap, and no need to check previous state
 
     // now we pull an item out of H; any item is ok, but if we grab the rightmost and then
